@@ -9,7 +9,8 @@ import torch
 
 from harness import realopt, simdist
 
-COMM = {"fp32": (torch.float32, "FP32"), "bf16": (torch.bfloat16, "BF16"), "fp16": (torch.float16, "FP16")}
+COMM = {"fp32": (torch.float32, "FP32"), "bf16": (torch.bfloat16, "BF16"), "fp16": (torch.float16, "FP16"),
+        "default": (torch.float32, "DEFAULT")}          # DEFAULT communicates in float32
 
 
 def set_grads(draw, params, masks_t, t):
@@ -130,9 +131,13 @@ def random_masks(rng, draw, n_steps, owner_by_param=None, allow_starvation=True)
 
 # ------------------------------------------------------------------------------------------------------------------
 # FSDP / HSDP (flat shards + metadata) and fully_shard / hybrid shard (dim-0 sharded DTensors)
+def _pdt(task, i):
+    return realopt.DT[task["dtypes"][i]] if task.get("dtypes") else torch.float32
+
+
 def full_tensors(task):
     gen = torch.Generator().manual_seed(task["draw"]["seed"])
-    return [torch.randn(tuple(s), generator=gen, dtype=torch.float64).to(torch.float32) for s in task["shapes"]]
+    return [torch.randn(tuple(s), generator=gen, dtype=torch.float64).to(_pdt(task, i)) for i, s in enumerate(task["shapes"])]
 
 
 def full_grad(task, i, t):
@@ -140,7 +145,7 @@ def full_grad(task, i, t):
     rows is exactly zero (embedding rows that were not used, frozen slices): the local gradient of some shard rank is then PRESENT
     but all-zero - which is not an absent gradient."""
     gen = torch.Generator().manual_seed(hash((task["draw"]["seed"], i, t)) % (2 ** 31))
-    g = torch.randn(tuple(task["shapes"][i]), generator=gen, dtype=torch.float64).to(torch.float32)
+    g = torch.randn(tuple(task["shapes"][i]), generator=gen, dtype=torch.float64).to(_pdt(task, i))
     if task.get("zero_rows") and g.dim() >= 1 and g.shape[0] > 1:
         sel = hash((task["draw"]["seed"], "z", i, t)) % 4
         h = max(1, (g.shape[0] * (1 + hash((task["draw"]["seed"], "h", i, t)) % 3)) // 4)
@@ -204,8 +209,11 @@ def fsdp_rank_fn(task, hsdp=False):
         for i, (s, e) in enumerate(task["shards"][k]):
             p = torch.nn.Parameter(fulls[i].reshape(-1)[s:e].clone())
             params.append(p)
-            meta_of[i] = FSDPParameterMetadata(fqn=f"p{i}", shape=torch.Size(task["shapes"][i]), numel=int(fulls[i].numel()),
-                                               start_idx=s, end_idx=e, sharding_strategy=ShardingStrategy.FULL_SHARD)
+            # fully qualified names are relative to the wrapping FSDP unit: nested units repeat them ("weight", "weight", "bias")
+            fqn = (("weight" if len(task["shapes"][i]) >= 2 else "bias") if task.get("dup_fqn") else f"p{i}")
+            strategy = getattr(ShardingStrategy, task.get("strategy", "FULL_SHARD"))
+            meta_of[i] = FSDPParameterMetadata(fqn=fqn, shape=torch.Size(task["shapes"][i]), numel=int(fulls[i].numel()),
+                                               start_idx=s, end_idx=e, sharding_strategy=strategy)
         meta = {params[i]: meta_of[i] for i in task.get("meta_order", range(len(params)))}     # a mapping: its order carries no meaning
         if hsdp:
             from torch.distributed.device_mesh import DeviceMesh, init_device_mesh
@@ -299,6 +307,12 @@ def dtensor_rank_fn(task, hybrid=False):
             pcs = task["pieces"][k][i]
             if pcs:
                 loc = full.reshape(-1)[pcs[0]["off"]:pcs[0]["off"] + pcs[0]["len"]].view(tuple(pcs[0]["shp"])).clone()
+                if task.get("strided_local") and loc.dim() >= 2:
+                    # the local shard sits in row-padded storage (stride of the last-but-one dimension larger than the row length)
+                    big = torch.zeros(tuple(loc.shape[:-1]) + (2 * loc.shape[-1] + 1,), dtype=loc.dtype)
+                    view = big[..., :loc.shape[-1]]
+                    view.copy_(loc)
+                    loc = view
             else:
                 loc = torch.zeros((0,) + tuple(full.shape[1:]), dtype=full.dtype)
             return DTensor.from_local(loc, mesh, place, run_check=False, shape=full.shape, stride=full.stride())
